@@ -366,11 +366,35 @@ def element_sources(ctx: Ctx, frame: FuncInfo, env, coll: Optional[ast.AST], _de
         return value_sources(ctx, frame, env, coll.value, _depth + 1)
     if isinstance(coll, ast.Dict):
         out = set()
-        for x in coll.values:
-            out |= value_sources(ctx, frame, env, x, _depth + 1)
+        for k, x in zip(coll.keys, coll.values):
+            # `{**a, **b}`: the values of a and of b
+            out |= value_sources(ctx, frame, env, x, _depth + 1) if k is not None else element_sources(ctx, frame, env, x, _depth + 1)
         return out
+    if isinstance(coll, ast.BinOp) and isinstance(coll.op, ast.BitOr):
+        return element_sources(ctx, frame, env, coll.left, _depth + 1) | element_sources(ctx, frame, env, coll.right, _depth + 1)
+    if isinstance(coll, ast.Attribute) and isinstance(coll.value, ast.Name) and coll.value.id == ctx.an.scope(frame).selfname and frame.cls is not None:
+        # `self._view` with a property of the class that returns a combined view of registries: what its returns denote
+        prop = ctx.prog.lookup(frame.cls, coll.attr)
+        if prop is not None and prop.kind == "property":
+            out = set()
+            for r in ctx.an.scope(prop)._own_nodes():
+                if isinstance(r, ast.Return) and r.value is not None:
+                    out |= element_sources(ctx, prop, None, r.value, _depth + 1)
+            return out or {"?"}
     if isinstance(coll, ast.Call):
         fn = coll.func
+        cname = ctx.an.scope(frame).callee(coll).name.rpartition(".")[2]
+        if cname in ("ChainMap", "chain") and coll.args and not coll.keywords:
+            # a look-up in `ChainMap(a, b)` finds an entry of a or of b; `chain(xs, ys)` yields the items of both
+            out = set()
+            for a_ in coll.args:
+                out |= element_sources(ctx, frame, env, a_.value if isinstance(a_, ast.Starred) else a_, _depth + 1)
+            return out
+        if isinstance(fn, ast.Name) and fn.id == "dict" and coll.args:
+            out = element_sources(ctx, frame, env, coll.args[0], _depth + 1)
+            for k in coll.keywords:
+                out |= element_sources(ctx, frame, env, k.value, _depth + 1) if k.arg is None else value_sources(ctx, frame, env, k.value, _depth + 1)
+            return out
         if isinstance(fn, ast.Name) and fn.id in ("list", "tuple", "set", "sorted", "reversed", "iter", "frozenset") and len(coll.args) == 1:
             return element_sources(ctx, frame, env, coll.args[0], _depth + 1)
         if isinstance(fn, ast.Attribute) and fn.attr in ("values", "copy") and not coll.args:
@@ -406,6 +430,65 @@ def element_sources(ctx: Ctx, frame: FuncInfo, env, coll: Optional[ast.AST], _de
                     out |= element_sources(ctx, frame, env, node.args[0], _depth + 1)
         return out
     return {"?"}
+
+
+def registry_view(ctx: Ctx, frame: FuncInfo, env, e: Optional[ast.AST], _depth: int = 0) -> Optional[Set[str]]:
+    """e as a mapping from task ids to tasks built from the task registries alone - a registry, a copy (`dict(r)`, `r.copy()`,
+    `{**r}`), a combination (`{**a, **b}`, `a | b`, `ChainMap(a, b)`), a private property returning one -> the registries shown
+    (tags R / C / E); None when e is anything else"""
+    from ..cfg import strip_cast
+
+    if e is None or _depth > 6:
+        return None
+    e = strip_cast(e)
+    p = ctx.eff.paths(frame).of(e)
+    p = ctx.eff.rebase(p, frame, env) if p is not None else None
+    if p is not None:
+        for fld, tag in REG_OF_FIELD.items():
+            if re.search(r"\." + fld + r"$", p):
+                return {tag}
+    parts: List[ast.AST] = []
+    if isinstance(e, ast.Dict) and e.keys and all(k is None for k in e.keys):
+        parts = list(e.values)
+    elif isinstance(e, ast.BinOp) and isinstance(e.op, ast.BitOr):
+        parts = [e.left, e.right]
+    elif isinstance(e, ast.Call) and isinstance(e.func, ast.Attribute) and e.func.attr == "copy" and not e.args and not e.keywords:
+        parts = [e.func.value]
+    elif isinstance(e, ast.Call) and not e.keywords and e.args and not any(isinstance(a, ast.Starred) for a in e.args) \
+            and (ctx.an.scope(frame).callee(e).name.rpartition(".")[2] == "ChainMap" or (isinstance(e.func, ast.Name) and e.func.id == "dict" and len(e.args) == 1)):
+        parts = list(e.args)
+    elif isinstance(e, ast.Attribute) and isinstance(e.value, ast.Name) and e.value.id == ctx.an.scope(frame).selfname and frame.cls is not None:
+        prop = ctx.prog.lookup(frame.cls, e.attr)
+        if prop is None or prop.kind != "property":
+            return None
+        rets = [r.value for r in ctx.an.scope(prop)._own_nodes() if isinstance(r, ast.Return)]
+        if not rets or any(r is None for r in rets):
+            return None
+        out: Set[str] = set()
+        for r in rets:
+            sub = registry_view(ctx, prop, None, r, _depth + 1)
+            if sub is None:
+                return None
+            out |= sub
+        return out
+    elif isinstance(e, ast.Name):
+        sc = ctx.an.scope(frame)
+        if e.id in sc.params and env and e.id in env and not sc.defs.get(e.id):
+            caller, arg, cenv = env[e.id]
+            return registry_view(ctx, caller, cenv, arg, _depth + 1)
+        hows = sc.defs.get(e.id, [])
+        if len(hows) == 1 and hows[0][0] in ("assign", "ann"):
+            return registry_view(ctx, frame, env, hows[0][1] if hows[0][0] == "assign" else hows[0][2], _depth + 1)
+        return None
+    if not parts:
+        return None
+    out = set()
+    for x in parts:
+        sub = registry_view(ctx, frame, env, x, _depth + 1)
+        if sub is None:
+            return None
+        out |= sub
+    return out
 
 
 def r_cancel_targets(ctx: Ctx, rule: str):
@@ -534,7 +617,8 @@ def r_group_helper(ctx: Ctx, rule: str):
             # the receiver, followed through locals and through the parameters of helpers spliced into this function
             rfr, renv, recv = ctx.vals.trace(c.func, c.env, c.ast.func.value)
             P = ctx.eff.paths(f)
-            ok = isinstance(recv, ast.Subscript) and ctx.eff.rebase(ctx.eff.paths(rfr).of(recv.value) or "", rfr, renv) == RUN
+            # (looked up by id in the running registry, or in a view that shows the running registry alone)
+            ok = isinstance(recv, ast.Subscript) and (ctx.eff.rebase(ctx.eff.paths(rfr).of(recv.value) or "", rfr, renv) == RUN or registry_view(ctx, rfr, renv, recv.value) == {"R"})
             key = recv.slice if isinstance(recv, ast.Subscript) else None
             key_ok = False
             if isinstance(key, ast.Name):
